@@ -54,9 +54,40 @@ def _impl(case):
     return hist.impl_compute(case, full=False)
 
 
+def _impl_to(args):
+    case, t = args
+    return hist.impl_compute(case, to_day=t, full=False)
+
+
+def to_date_stage(out, data, tier, replay=None):
+    """a to-date only limits what is reported: the whole history is still matched, so a history that is fully covered
+    without a to-date must not be rejected with one (lots acquired after the to-date still cover later disposals)"""
+    rng = core.Rng(core.seed(), 21)
+    if replay is not None:
+        jobs = [(replay["case"], replay["to"])]
+    else:
+        ok = [c for c, i in zip(data["cases"], data["impl"]) if "ok" in i]
+        jobs = []
+        for c in ok[:(600 if tier == "quick" else 8000)]:
+            days = sorted({hist.local_day(r["ts"]) for r in c["ins"] + c["outs"] + c["intras"]})
+            jobs.append((c, max(0, rng.choice(days) + rng.choice([0, 0, 1, -1, 30, -30]))))
+    res = core.pool_map(_impl_to, jobs, init=core.impl_env_setup)
+    for (c, t), r in zip(jobs, res):
+        if "ok" not in r:
+            out.violation(f"valid history (every disposal covered by earlier lots, accepted without a to-date) is rejected when the to-date "
+                          f"day {t} is given: {r.get('err')}: {r.get('msg', '')[:160]}", {"case": c, "to": t}, tags={"to-date-rejects-valid"})
+    return len(jobs)
+
+
 def run(tier, build, replay=None):
     out = core.Outcome("C02", tier)
     proofs = core.check_proofs(build, "C02.v")
+    if replay and "case" in replay and "to" in replay:
+        core.impl_env_setup()
+        n = to_date_stage(out, None, tier, replay)
+        core.proofs_verdict(out, proofs, build, "C02.v")
+        out.coverage.update({"evaluations": n, "distinct_nontrivial": n, "rule": "replay of a to-date run"})
+        return out.finish(proofs, build)
     if replay:
         core.impl_env_setup()
         data = {"cases": [replay], "impl": [hist.impl_compute(replay)],
@@ -113,6 +144,8 @@ def run(tier, build, replay=None):
         if not l2.same_outcome(iv, hist.decode_fracs(m)):
             mism += 1
             out.violation("model and implementation disagree on a sell-all extension", c, tags={"correspondence"}, found_input=False)
+    n_to = to_date_stage(out, data, tier) if not replay else 0
+    out.coverage["runs_with_a_to_date"] = n_to
     core.proofs_verdict(out, proofs, build, "C02.v")
     out.coverage.update({
         "evaluations": len(data["cases"]) + len(ext_cases),
